@@ -363,7 +363,7 @@ Qed.
 Definition own_br (k : nat) (o : obj) : bool :=
   match o_own o with WBr k' => Nat.eqb k' k | WAt k' _ => Nat.eqb k' k | WEnd => false end.
 Definition wend_map (o : obj) : bool :=
-  owner_eqb (o_own o) WEnd && match o_fld o with FHdr | FQry | FPar => true | _ => false end.
+  owner_eqb (o_own o) WEnd && match o_fld o with FHdr | FQry | FPar | FVals => true | _ => false end.
 Definition endp (s : pst) : Prop := forall f, o_own (pv s f) = WEnd.
 Definition mfoot (k : nat) (x : acc) : Prop :=
   (exists k', k <= k' /\ own_br k' (aobj x) = true) \/
@@ -493,7 +493,9 @@ Proof.
           rewrite H1. cbn. unfold wend_map. rewrite Hend, Hty. reflexivity.
         + right. split; [destruct (is_wr x); [destruct (H2 eq_refl); discriminate|reflexivity]|].
           rewrite H1. cbn. unfold wend_map. rewrite Hend, Hty. reflexivity.
-        + specialize (H3 eq_refl). rewrite Hcb, Hsc in H3. discriminate. }
+        + specialize (H3 eq_refl). rewrite Hcb, Hsc in H3. discriminate.
+        + right. split; [destruct (is_wr x); [destruct (H2 eq_refl); discriminate|reflexivity]|].
+          rewrite H1. cbn. unfold wend_map. rewrite Hend, Hty. reflexivity. }
     split.
     + change (map Acc ([Rd (pv s FStruct)] ++ [Wr (Ob (WBr k) SMerge FStruct) (px s FStruct)]) ++
               Fork (branch_prog ls k (WBr k) b c) :: merge_loop ls false r (S k) s)
